@@ -285,6 +285,9 @@ RULE = ("exhaustive: every tree of depth <= 2 (quick, + every 31st depth-3 tree)
         "or a scalar on the left, or a literal-only sub-tree, or a parenthesis that changes the parse); assign/operators: reference defined. "
         "Distinct = hash of the case.")
 
+# coverage-guided stage of the thorough tier (vt/fuzz.py): sub-check -> libFuzzer executions
+FUZZ = {'random_expr': 20000, 'assign': 10000}
+
 SUBCHECKS = [
     SubCheck("exhaustive", body_eval, enum=enum_trees, rule="all small trees", qshards=8),
     SubCheck("random_expr", body_eval, strategy=strat_eval, quick=6000, thorough=300000),
